@@ -131,21 +131,21 @@ Qed.
 (* any edit that stays within the listed leaves and their ancestors, payload included, keeps the cache right *)
 Theorem cache_right_after_a_confined_edit pay pay' t t' c ls :
   small t' -> CacheOK pay t c ->
-  (forall n, ~ touched ls n -> get t' n = get t n /\ pay' n = pay n) ->
+  (forall n, ~ touched ls n -> get t' n = get t n /\ (get t n <> None -> pay' n = pay n)) ->
   exists c', update_hashes pay' c t' ls = Ok c' /\ CacheOK pay' t' c'.
 Proof.
   intros S' C Fr. apply (update_hashes_keeps_the_cache pay pay' t t' c ls S' C).
   - intros l _ _ Nl. unfold leaf_of. destruct (Fr (2 * l)) as [G P]; [intro T; apply Nl; apply touched_leaf; exact T|].
-    rewrite G, P. reflexivity.
+    rewrite G. destruct (get t (2 * l)) as [[id|um]|]; try reflexivity. rewrite P by discriminate. reflexivity.
   - intros k j Hj Nd. unfold parent_of. destruct (Fr (node (N.of_nat (S k)) j)) as [G P]; [intro T; apply Nd; apply touched_dirty; assumption|].
-    rewrite G, P. reflexivity.
+    rewrite G. destruct (get t (node (N.of_nat (S k)) j)) as [[id|um]|]; try reflexivity. rewrite P by discriminate. reflexivity.
 Qed.
 
 (* the cache through the proposals of a commit *)
 Theorem cache_right_after_the_proposals pay pay' t removes updates adds t' added c :
   wf3 t -> tlen t + 2 * N.of_nat (length adds) < 2 ^ 25 ->
   batch_edit t removes updates adds = TOk (t', added) ->
-  (forall n, ~ touched (removes ++ map fst updates ++ added) n -> pay' n = pay n) ->
+  (forall n, ~ touched (removes ++ map fst updates ++ added) n -> get t n <> None -> pay' n = pay n) ->
   CacheOK pay t c ->
   exists c', update_hashes pay' c t' (removes ++ map fst updates ++ added) = Ok c' /\ CacheOK pay' t' c'.
 Proof.
@@ -159,7 +159,7 @@ Qed.
 (* and through the update path *)
 Theorem cache_right_after_the_update_path pay pay' t sndr id t2 c :
   small t -> small t2 -> apply_update_path t sndr id = TOk t2 ->
-  (forall n, ~ touched [sndr] n -> pay' n = pay n) ->
+  (forall n, ~ touched [sndr] n -> get t n <> None -> pay' n = pay n) ->
   CacheOK pay t c ->
   exists c', update_hashes pay' c t2 [sndr] = Ok c' /\ CacheOK pay' t2 c'.
 Proof.
